@@ -724,4 +724,219 @@ theorem allStorePathsL_nodup : ∀ (fs : List FIS) (acc paths : List (String × 
       exact allStorePathsL_nodup fs acc' paths h (allStorePaths_nodup f acc acc' hf hnd)
 end
 
+/-! ## Re-evaluation: when the tree is covered, nothing is written -/
+
+def HitFn (m : Nat) (W : World) (paths : List (String × Sg)) (fuel : Nat) : Prop :=
+  ∀ (fn : Fn) (ctx : ArgCtx) (env : Env) (refs : Refs) (stack : List String) (fis : FIS) (r : Refs) (st : XSt),
+    analyse m W fuel refs stack fn ctx = .ok (fis, r) → FIS.pathsOKL paths fis.subs →
+    CoveredL st.store.blobs fis.subs → (∀ it ∈ fn.items, it.noLoad) →
+    (runFn W paths fuel st fn env).2.store = st.store
+
+theorem hit_call {m : Nat} {W : World} {paths : List (String × Sg)} {fuel : Nat} (hIH : HitFn m W paths fuel)
+    (hnl : ∀ f g, W.find f = some g → ∀ it ∈ g.items, it.noLoad)
+    {f : String} {g : Fn} {ctx : ArgCtx} {refs : Refs} {stack : List String} {fis : FIS} {rf : Refs} {xst : XSt}
+    (hfind : W.find f = some g) (ha : analyse m W fuel refs stack g ctx = .ok (fis, rf))
+    (kp : Option String)
+    (hkey : ∀ path, (kp = some path ∨ (kp = none ∧ g.storePath = some path)) →
+      aget paths path = some fis.retSig ∧ (sgGet xst.store.blobs fis.retSig).isSome = true)
+    (hsubs : FIS.pathsOKL paths fis.subs) (hcov : CoveredL xst.store.blobs fis.subs)
+    (pos : List RVal) (kw : List (String × RVal)) :
+    (runCall W paths (runFn W paths fuel) xst f pos kw kp).2.store = xst.store := by
+  simp only [runCall, hfind]
+  cases hb : bindRun g.params pos kw 0 with
+  | none => rfl
+  | some env' =>
+    simp only
+    have hk : ∀ path, aget paths path = some fis.retSig → (sgGet xst.store.blobs fis.retSig).isSome = true →
+        (keepExec paths (runFn W paths fuel) xst path g env').2.store = xst.store := by
+      intro path h1 h2
+      unfold keepExec
+      simp only [h1]
+      cases hbl : sgGet xst.store.blobs fis.retSig with
+      | some v => rfl
+      | none => simp [hbl] at h2
+    cases kp with
+    | some path => exact hk path (hkey path (Or.inl rfl)).1 (hkey path (Or.inl rfl)).2
+    | none =>
+      simp only [callExec]
+      cases hp : g.storePath with
+      | some path => exact hk path (hkey path (Or.inr ⟨rfl, hp⟩)).1 (hkey path (Or.inr ⟨rfl, hp⟩)).2
+      | none => exact hIH g ctx env' refs stack fis rf xst ha hsubs hcov (hnl f g hfind)
+
+/-- the functions already referenced by name: analysed, their kept paths resolved, their trees covered -/
+def SeenHit (m : Nat) (W : World) (paths : List (String × Sg)) (fuel : Nat) (bl : List (Sg × RVal)) (seen : List String) : Prop :=
+  ∀ f ∈ seen, ∃ (g : Fn) (ctx : ArgCtx) (fis : FIS) (rf refs0 : Refs) (stack0 : List String),
+    W.find f = some g ∧ analyse m W fuel refs0 stack0 g ctx = .ok (fis, rf) ∧ FIS.pathsOK paths fis ∧ Covered bl fis
+
+theorem hit_items {m : Nat} {W : World} {paths : List (String × Sg)} {fuel : Nat} (hIH : HitFn m W paths fuel)
+    (hnlW : ∀ f g, W.find f = some g → ∀ it ∈ g.items, it.noLoad)
+    (fn : Fn) (isig : Sg) (stack : List String) (env : Env) :
+    ∀ (its : List Item), (∀ it ∈ its, it.noLoad) → ∀ (s sfin : VisitSt) (results : List RVal) (xst : XSt),
+      visitItems m W (analyse m W fuel) fn isig stack s its = .ok sfin →
+      FIS.pathsOKL paths sfin.inters → CoveredL xst.store.blobs sfin.inters →
+      SeenHit m W paths fuel xst.store.blobs s.seen →
+      (runItems W (some paths) (runFn W paths fuel) fn env xst results its).2.store = xst.store
+  | [], _, _, _, _, _, _, _, _, _ => rfl
+  | it :: its, hnl, s, sfin, results, xst, hrest, hok, hcov, hseen => by
+    obtain ⟨t, hv, hr⟩ := visitItems_cons_inv hrest
+    rw [runItems_cons]
+    have hnl' : ∀ x ∈ its, x.noLoad := fun x hx => hnl x (mem_cons_of_mem _ hx)
+    have cov_mem : ∀ node, node ∈ sfin.inters → Covered xst.store.blobs node := by
+      intro node hin
+      have : ∀ (l : List FIS), CoveredL xst.store.blobs l → node ∈ l → Covered xst.store.blobs node := by
+        intro l
+        induction l with
+        | nil => intro _ h; cases h
+        | cons x l ih =>
+          intro hc hm
+          simp only [CoveredL] at hc
+          rcases mem_cons.mp hm with rfl | hm
+          · exact hc.1
+          · exact ih hc.2 hm
+      exact this _ hcov hin
+    have one : ∀ (f : String) (g : Fn) (c : ArgCtx) (fis node : FIS) (rf refs0 : Refs) (stack0 : List String) (kp : Option String)
+        (pos : List RVal) (kw : List (String × RVal)),
+        W.find f = some g → analyse m W fuel refs0 stack0 g c = .ok (fis, rf) →
+        node ∈ sfin.inters → node.retSig = fis.retSig → node.subs = fis.subs →
+        node.storePath = (match kp with | some p => some p | none => g.storePath) →
+        (runCall W paths (runFn W paths fuel) xst f pos kw kp).2.store = xst.store := by
+      intro f g c fis node rf refs0 stack0 kp pos kw hfind ha hin hsig hsubs hsp
+      obtain ⟨k1, k2⟩ := (pathsOK_iff paths node).mp (pathsOKL_mem hok hin)
+      obtain ⟨c1, c2⟩ := (covered_iff _ _).mp (cov_mem node hin)
+      rw [hsig] at k1 c1; rw [hsubs] at k2 c2
+      refine hit_call hIH hnlW hfind ha kp (fun path hp => ?_) k2 c2 pos kw
+      have hsp' : node.storePath = some path := by
+        rw [hsp]
+        rcases hp with rfl | ⟨rfl, hp⟩
+        · rfl
+        · exact hp
+      exact ⟨k1 path hsp', c1 (by rw [hsp']; simp)⟩
+    have claim : (runItemRes W paths (runFn W paths fuel) env xst results it).2.store = xst.store ∧
+        SeenHit m W paths fuel xst.store.blobs t.seen := by
+      cases it with
+      | call f l =>
+        obtain ⟨g, c, named, fis, rf, hstep, e⟩ := plain_inv (by simpa [visitItem] using hv)
+        have hin : fis ∈ sfin.inters := mem_final_inters hr (by rw [e]; simp)
+        exact ⟨one f g ⟨named, c⟩ fis fis rf _ _ none [] [] hstep.find hstep.sub hin rfl rfl (analyse_storePath hstep.sub),
+          by rw [e]; exact hseen⟩
+      | callArgs f args kwargs rtA rtK l =>
+        obtain ⟨g, c, named, fis, rf, hstep, e⟩ := plain_inv (by simpa [visitItem] using hv)
+        have hin : fis ∈ sfin.inters := mem_final_inters hr (by rw [e]; simp)
+        exact ⟨one f g ⟨named, c⟩ fis fis rf _ _ none _ _ hstep.find hstep.sub hin rfl rfl (analyse_storePath hstep.sub),
+          by rw [e]; exact hseen⟩
+      | keep path f args kwargs rtA rtK l =>
+        obtain ⟨g, c, named, fis, rf, hstep, _, e⟩ := keep_inv hv
+        have hin : fis.withPath path ∈ sfin.inters := mem_final_inters hr (by rw [e]; simp)
+        exact ⟨one f g ⟨named, c⟩ fis (fis.withPath path) rf _ _ (some path) _ _ hstep.find hstep.sub hin rfl rfl rfl,
+          by rw [e]; exact hseen⟩
+      | ref f l =>
+        rcases ref_inv hv with ⟨hin, e⟩ | ⟨hnot, g, c, named, fis, rf, hstep, e⟩
+        · obtain ⟨g, c, fis, rf, refs0, stack0, hfind, ha, hfok, hfcov⟩ := hseen f hin
+          obtain ⟨k1, k2⟩ := (pathsOK_iff paths fis).mp hfok
+          obtain ⟨c1, c2⟩ := (covered_iff _ _).mp hfcov
+          refine ⟨hit_call hIH hnlW hfind ha none (fun path hp => ?_) k2 c2 [] [], by rw [e]; exact hseen⟩
+          rcases hp with hp | ⟨_, hp⟩
+          · cases hp
+          · have : fis.storePath = some path := by rw [analyse_storePath ha, hp]
+            exact ⟨k1 path this, c1 (by rw [this]; simp)⟩
+        · have hin : fis ∈ sfin.inters := mem_final_inters hr (by rw [e]; simp)
+          refine ⟨one f g ⟨named, c⟩ fis fis rf _ _ none [] [] hstep.find hstep.sub hin rfl rfl (analyse_storePath hstep.sub), ?_⟩
+          rw [e]
+          intro f' hf'
+          rcases mem_cons.mp hf' with rfl | hf'
+          · exact ⟨g, ⟨named, c⟩, fis, rf, s.refs, stack ++ [f'], hstep.find, hstep.sub, pathsOKL_mem hok hin, cov_mem fis hin⟩
+          · exact hseen f' hf'
+      | load path l => exact absurd (hnl _ mem_cons_self) (by simp [Item.noLoad])
+      | evalCall f l => exact absurd (hnl _ mem_cons_self) (by simp [Item.noLoad])
+    obtain ⟨c1, c2⟩ := claim
+    cases hR : runItemRes W paths (runFn W paths fuel) env xst results it with
+    | mk rv xst' =>
+      rw [hR] at c1
+      simp only at c1
+      cases rv with
+      | error e => exact c1
+      | ok v =>
+        simp only
+        rw [hit_items hIH hnlW fn isig stack env its hnl' t sfin _ xst' hr hok (by rw [c1]; exact hcov) (by rw [c1]; exact c2)]
+        exact c1
+
+/-- **when every kept call of the tree is in the store, running the function writes nothing** -/
+theorem hit_fn (m : Nat) (W : World) (paths : List (String × Sg))
+    (hnlW : ∀ f g, W.find f = some g → ∀ it ∈ g.items, it.noLoad) : ∀ fuel, HitFn m W paths fuel
+  | 0 => by
+    intro fn ctx env refs stack fis r st ha
+    exact absurd ha analyse_zero
+  | k + 1 => by
+    intro fn ctx env refs stack fis r st ha hsubs hcov hnl
+    obtain ⟨ev, io, sv, b, d, ret, a⟩ := analyse_inv ha
+    have hsub : fis.subs = sv.inters := by rw [a.hfis]; rfl
+    rw [hsub] at hsubs hcov
+    rw [(runFn_succ W paths k st fn env).2]
+    exact hit_items (hit_fn m W paths hnlW k) hnlW fn _ stack env fn.items hnl _ sv []
+      { st with log := st.log ++ [fn.name] } a.hvisit hsubs hcov (fun f hf => absurd hf (by simp))
+
+/-- an evaluation whose whole tree is covered by the store writes no blob: nothing is recomputed -/
+theorem covered_eval_writes_nothing (U : Universe) (m : Nat) (W : World) (S : PStore) (rq : Request) (hW : U.world W)
+    {fn : Fn} {env : Env} {fis' : FIS} {paths : List (String × Sg)}
+    (ha : analysisPhase m W S rq = .ok (fn, env, fis', paths)) (hcov : Covered S.blobs fis') :
+    (evalStep m W S rq).store.blobs = S.blobs := by
+  obtain ⟨named, refs0, fis, r, P⟩ := analysisPhase_inv ha
+  have hsig : fis'.retSig = fis.retSig := by rw [P.hfis]; cases entryPathOf rq fn <;> rfl
+  have hsubs' : fis'.subs = fis.subs := by rw [P.hfis]; cases entryPathOf rq fn <;> rfl
+  obtain ⟨k1, k2⟩ := (pathsOK_iff paths fis').mp ((allStorePaths_ok fis' [] paths P.hpaths).2 paths (fun _ _ h => h))
+  obtain ⟨c1, c2⟩ := (covered_iff _ _).mp hcov
+  rw [hsubs'] at k2 c2
+  by_cases hs : Stage.eval ∈ rq.stages
+  · simp only [evalStep, ha, hs, not_true_eq_false, if_false]
+    cases hb : sgGet S.blobs fis'.retSig with
+    | some w => simp only; split <;> simp [sync_blobs]
+    | none =>
+      simp only
+      have hnl : ∀ f g, W.find f = some g → ∀ it ∈ g.items, it.noLoad := fun f g hf => U.noLoads g (U.find hW hf)
+      have hst := hit_fn m W paths hnl W.fuel fn ⟨named, none⟩ env refs0 [] fis r { store := S } P.hana k2 c2
+        (U.noLoads fn (U.find hW P.hfind))
+      cases hr : runFn W paths W.fuel { store := S } fn env with
+      | mk rv st =>
+        rw [hr] at hst
+        simp only at hst ⊢
+        cases rv with
+        | error e => simp [hst]
+        | ok w =>
+          simp only
+          cases hp : fis'.storePath with
+          | none => simp only; split <;> simp [sync_blobs, hst]
+          | some pth =>
+            -- a kept root that is covered has its blob: this branch is the hit above
+            have := c1 (by rw [hp]; simp)
+            simp [hb] at this
+  · simp only [evalStep, ha, hs, not_false_eq_true, if_true]
+
+/-- **re-evaluation recomputes nothing** (also when the root is not kept): after a successful evaluation on a real store,
+an evaluation whose root has the same signature and the same kind of entry finds every kept call in the store -/
+theorem reeval_writes_nothing (U : Universe) (m : Nat) (W W' : World) (S : PStore) (rq rq' : Request)
+    (hW : U.world W) (hW' : U.world W') (hC : Closed U m S) (hn : S.noop = false)
+    {fn : Fn} {env : Env} {fis1 : FIS} {paths : List (String × Sg)}
+    (ha : analysisPhase m W S rq = .ok (fn, env, fis1, paths)) (hs : Stage.eval ∈ rq.stages)
+    {v : RVal} (hv : (evalStep m W S rq).value = .ok (some v))
+    {fn' : Fn} {env' : Env} {fis2 : FIS} {paths' : List (String × Sg)}
+    (ha' : analysisPhase m W' (evalStep m W S rq).store rq' = .ok (fn', env', fis2, paths'))
+    (hsig : fis2.retSig = fis1.retSig) (hsp : fis2.storePath = fis1.storePath) :
+    (evalStep m W' (evalStep m W S rq).store rq').store.blobs = (evalStep m W S rq).store.blobs := by
+  obtain ⟨_, hcov⟩ := evalStep_covered U m W S rq hW hC hn ha hs hv
+  obtain ⟨named, refs0, fa, r, P⟩ := analysisPhase_inv ha
+  obtain ⟨named', refs0', fb, r', P'⟩ := analysisPhase_inv ha'
+  have e1 : fis1.retSig = fa.retSig ∧ fis1.subs = fa.subs := by rw [P.hfis]; cases entryPathOf rq fn <;> exact ⟨rfl, rfl⟩
+  have e2 : fis2.retSig = fb.retSig ∧ fis2.subs = fb.subs := by rw [P'.hfis]; cases entryPathOf rq' fn' <;> exact ⟨rfl, rfl⟩
+  have hsh := sig_shape U m W.fuel W'.fuel W W' _ _ _ _ fn fn' _ _ fa fb _ _ hW hW' (U.find hW P.hfind) (U.find hW' P'.hfind)
+    P.hana P'.hana (by rw [← e1.1, ← e2.1, hsig])
+  have hsubs : SameShapeL fa.subs fb.subs := by
+    obtain ⟨n1, s1, p1, subs1, l1⟩ := fa
+    obtain ⟨n2, s2, p2, subs2, l2⟩ := fb
+    simp only [SameShape] at hsh
+    exact hsh.2.2
+  obtain ⟨c1, c2⟩ := (covered_iff _ _).mp hcov
+  refine covered_eval_writes_nothing U m W' _ rq' hW' ha' ((covered_iff _ _).mpr ⟨?_, ?_⟩)
+  · rw [hsp, hsig]; exact c1
+  · rw [e2.2]; rw [e1.2] at c2; exact CoveredL.shape _ _ hsubs c2
+
 end Dds
